@@ -2041,7 +2041,7 @@ impl Property for C20 {
         "C20"
     }
     fn rule(&self) -> String {
-        "case = final store of a C01 history in one of three layouts (inline as built / resources and datasets selected by a mask moved to @include files and loaded with use_include, optionally serialised once so that no member is flagged as changed, optionally (`block`, about one random store in ten) with the stand-off files of selected members replaced by directories of the same name once the store is loaded, so that a member that is flagged as changed cannot be written and every serialisation that has to rewrite it fails / the stand-off store saved as CBOR and loaded again) x 2-3 reader scripts of 1-3 read-only operations (store to_json_string / to_json_value / to_json_file / save, dataset and resource ToJson::to_json_string with the store's, the member's or a fresh Config, their inherent to_json_string, to_json_value, to_json_file, 6 SELECT queries, find_text, related_text under 8 operators, .parallel().map().collect() over one of 22 sources covering all six parallel() adaptors - the store-level iterators, annotation.data() / annotations().data_unchecked() / annotations().data() / dataset.data() / dataset.keys() / resource.textselections() / annotation.textselections() / annotation.annotations() / annotations_in_targets(Max) / annotation.keys() per member, flat_map sources with repeats, reversed sources -, plain iteration, SearchLoop = 1-400 identical rounds of find_text + find_text_nocase + find_text_regex + split_text + utf8byte/utf8byte_to_charpos round trips on one resource, returning a digest of all rounds and the first round in full) x a schedule. One random case in a hundred is a searching case: one resource of 150-320 unicode points over an alphabet of 1-, 2-, 3- and 4-byte characters, 2-3 scripts of mostly SearchLoop on it, 2-4 free-running runs. Every script runs on its own OS thread under a cooperative scheduler that blocks each thread at every H2 yield point (before each read/write of the serialisation-mode cell and of the changed flags) and lets the schedule choose who proceeds; afterwards `stress` further runs use free-running threads (best effort, not deterministic). Oracle: every operation returns exactly the string / error / panic it returns when its script runs alone on an identically built store (with a blocked member: exactly the same error), and every file in the store's directory ends with the content it has after the script that changes it ran alone (untouched if no script changes it alone; a blocked file stays an empty directory). Facet parallel.sequential (checked by one thread on the quiescent store, for every source a script uses): source.parallel().map(f).collect::<Vec<_>>() equals source.map(f).collect::<Vec<_>>() for the same source expression - same items, same order, same multiplicity (labels parallel.unsorted_source[.<item type>] = the source was not strictly ascending, i.e. unsorted or with repeats; store.annotation_data_not_ascending / store.data_shared_by_annotations describe the store). Enumerated part: every schedule of small fixed scenarios (a 1-resource 1-dataset 1-annotation store in 6 layouts - dataset stand-off and changed / resource+dataset stand-off settled / resource stand-off and changed / loaded from CBOR / text file + dataset settled / inline - x all unordered pairs of 5 (thorough: 8) serialising operations, plus three-reader scenarios and scripts of two operations; 14 two-reader scenarios and one with a reader that tries twice on stores with blocked stand-off members (dataset / resource / both / one of two / settled) x store and member serialisations; 7 scenarios of two ParallelMap per reader over all 22 sources on a store whose annotations hold their data in descending handle order, share data, use equal handles from two sets and target annotations in descending order; 8 (thorough: 24) scenarios of three readers that each run SearchLoop (80 rounds) on one resource of 180-540 unicode points with 1-4 byte characters, with the same and with different needles, inline and stand-off, each followed by 3 free-running runs). Two blocked scenarios whose schedule tree is too large (three readers; two readers that rewrite one member before failing on the other) get every schedule prefix of 5 choices out of 3 instead. Non-trivial = the scheduled run has at least one context switch between a write and a read of the same cell (cell = kind of cell: serialisation mode or changed flag; the hook does not identify the instance): either an operation reads the cell after another thread wrote it, the two operations overlapping in time (the writer has not returned yet, or it wrote after the reading operation began; labels switch.*), or another thread writes the cell after an operation read it and before that operation returns (labels stale.*); distinct = distinct case JSON.".into()
+        "case = final store of a C01 history in one of three layouts (inline as built / resources and datasets selected by a mask moved to @include files and loaded with use_include, optionally serialised once so that no member is flagged as changed, optionally (`block`, about one random store in ten) with the stand-off files of selected members replaced by directories of the same name once the store is loaded, so that a member that is flagged as changed cannot be written and every serialisation that has to rewrite it fails / the stand-off store saved as CBOR and loaded again) x 2-3 reader scripts of 1-3 read-only operations (store to_json_string / to_json_value / to_json_file / save, dataset and resource ToJson::to_json_string with the store's, the member's or a fresh Config, their inherent to_json_string, to_json_value, to_json_file, 6 SELECT queries, find_text, related_text under 8 operators, .parallel().map().collect() over one of 22 sources covering all six parallel() adaptors - the store-level iterators, annotation.data() / annotations().data_unchecked() / annotations().data() / dataset.data() / dataset.keys() / resource.textselections() / annotation.textselections() / annotation.annotations() / annotations_in_targets(Max) / annotation.keys() per member, flat_map sources with repeats, reversed sources -, plain iteration, SearchLoop = 1-400 identical rounds of find_text + find_text_nocase + find_text_regex + split_text + utf8byte/utf8byte_to_charpos round trips on one resource, returning a digest of all rounds and the first round in full) x a schedule. One random case in a hundred is a searching case: one resource of 150-320 unicode points over an alphabet of 1-, 2-, 3- and 4-byte characters, 2-3 scripts of mostly SearchLoop on it, 2-4 free-running runs. Every script runs on its own OS thread under a cooperative scheduler that blocks each thread at every H2 yield point (before each read/write of the serialisation-mode cell and of the changed flags) and lets the schedule choose who proceeds; afterwards `stress` further runs use free-running threads (best effort, not deterministic). Oracle: every operation returns exactly the string / error / panic it returns when its script runs alone on an identically built store (with a blocked member: exactly the same error), and every file in the store's directory ends with the content it has after the script that changes it ran alone (untouched if no script changes it alone; a blocked file stays an empty directory). Facet parallel.sequential (checked by one thread on the quiescent store, for every source a script uses): source.parallel().map(f).collect::<Vec<_>>() equals source.map(f).collect::<Vec<_>>() for the same source expression - same items, same order, same multiplicity (labels parallel.unsorted_source[.<item type>] = the source was not strictly ascending, i.e. unsorted or with repeats; store.annotation_data_not_ascending / store.data_shared_by_annotations describe the store). Enumerated part: every schedule of small fixed scenarios (a 1-resource 1-dataset 1-annotation store in 6 layouts - dataset stand-off and changed / resource+dataset stand-off settled / resource stand-off and changed / loaded from CBOR / text file + dataset settled / inline - x all unordered pairs of 5 (thorough: 8) serialising operations, plus three-reader scenarios and scripts of two operations; 14 two-reader scenarios and one with a reader that tries twice on stores with blocked stand-off members (dataset / resource / both / one of two / settled) x store and member serialisations; 9 (thorough: 14) scenarios of 2-3 readers on stores whose stand-off files live in a subdirectory that is removed once the store is loaded (`subdir`: a serialisation that has to rewrite a member finds no directory; whatever it does alone it has to do next to other readers), each followed by 4 free-running runs; 7 scenarios of two ParallelMap per reader over all 22 sources on a store whose annotations hold their data in descending handle order, share data, use equal handles from two sets and target annotations in descending order; 8 (thorough: 24) scenarios of three readers that each run SearchLoop (80 rounds) on one resource of 180-540 unicode points with 1-4 byte characters, with the same and with different needles, inline and stand-off, each followed by 3 free-running runs). Two blocked scenarios whose schedule tree is too large (three readers; two readers that rewrite one member before failing on the other) get every schedule prefix of 5 choices out of 3 instead. Non-trivial = the scheduled run has at least one context switch between a write and a read of the same cell (cell = kind of cell: serialisation mode or changed flag; the hook does not identify the instance): either an operation reads the cell after another thread wrote it, the two operations overlapping in time (the writer has not returned yet, or it wrote after the reading operation began; labels switch.*), or another thread writes the cell after an operation read it and before that operation returns (labels stale.*); distinct = distinct case JSON.".into()
     }
     fn assumptions(&self) -> Vec<String> {
         vec![
